@@ -18,7 +18,15 @@ Exprs == {
   "typeof k", "typeof -5", "typeof typeof k", "get nil", "get 5", "nil or 1", "(k) or 1", "k ?= 5", "5 ?= k", "nil ?= nil", "-true", "!5", "-\"s\"", "--5", "- -5",
   "k()", "5()", "f(1)(2)", "f()", "f(1, 2)", "f(f)", "o.zz", "o.v.w", "o.val()", "o.val(1)", "Box(1)", "Box", "self", "Self", "nosuch", "print",
   "[1, \"a\"]", "[]", "[[]]", "[1, [2]]", "map[int, str]", "map[int, str] {1: 2}", "map[str, int] {\"a\": 1, \"a\": 2}", "fn() { return 1 }", "fn() -> int { }",
-  "fn(a: int, a: int) { }", "1 is nil", "xs is ys", "f == f", "xs == 1", "\"a\" * -1", "\"a\" * 2147483647", "\"a\" + nil", "1 + \"a\" + 2", "k += 1", "k = 5" }
+  "fn(a: int, a: int) { }", "fn() -> int { return 1 }", "ap(fn() -> int { return 1 })", "ap2(fn() -> int { return k }, 2)",
+  "ap(fn() -> int { return ap(fn() -> int { return 2 }) })", "o.add(ap(fn() -> int { return 1 }))", "ap(f)", "ap(fn() -> str { return 1 })",
+  \* strings with characters of more than one byte (~E~ = e-acute, ~J~ = a CJK character, ~M~ = an emoji; substituted by the harness,
+  \* see DESIGN: TLC does not keep non-ASCII characters in states reliably): character positions are not byte positions
+  "\"h~E~llo\"[1]", "\"h~E~llo\"[2]", "\"h~E~llo\"[5]", "\"~E~\"[0]", "\"~E~\"[1]", "\"~J~~J~\"[1]", "\"~J~~J~\"[2]", "\"~M~\"[0]", "\"~M~\"[1]", "\"a~M~b\"[2]",
+  "\"~E~\".len()", "\"a~E~\" * 2", "\"~E~\" + \"a\"", "\"~E~\" == \"e\"", "\"h~E~llo\".substring(1, 2)", "\"h~E~llo\".index_of(\"l\")", "\"~J~x\"[k]",
+  \* `Self` outside of a class
+  "(get sx).foo", "(sx).foo", "sx == nil", "(get sx).val()", "get sx",
+  "1 is nil", "xs is ys", "f == f", "xs == 1", "\"a\" * -1", "\"a\" * 2147483647", "\"a\" + nil", "1 + \"a\" + 2", "k += 1", "k = 5" }
 
 (* scaling shapes: long flat chains and deep nestings (the front end must stay polynomial and must not overflow its stack) *)
 RECURSIVE Rep(_, _)
@@ -31,13 +39,15 @@ Scaling == {
   "dm", "-dm", "dm + 1", "!dm", "dm * dm", "f(-dm)", "f(dm)", "dm == 5", "xs[dm]" }
 
 Contexts == {"stmt", "print", "decl", "typed_decl", "arg", "arg2", "method_arg", "ctor_arg", "push_arg", "list_elem", "index", "cond", "while_cond",
-             "bound", "step", "ret", "operand_l", "operand_r", "assert", "reassign", "field_assign", "index_assign", "map_value", "in_fn", "in_method", "or_fallback"}
+             "bound", "step", "ret", "operand_l", "operand_r", "assert", "reassign", "field_assign", "index_assign", "map_value", "in_fn", "in_method", "or_fallback",
+             "in_ctor", "in_method_closure", "method_self_arg", "rec_arg", "in_method_ret"}
 
 Prologue == <<"class Box {", "	v: int", "	constructor(self) {", "		self.v = 1", "	}", "	fn val(self) -> int {", "		return self.v", "	}",
               "	fn add(self, n: int) -> int {", "		return self.v + n", "	}", "}", "class Pt {", "	q: int", "	constructor(self, q: int) {", "		self.q = q", "	}", "}",
               "xs: [int...] = [1, 2]", "const ys = [1, 2]", "mm = map[str, int] {\"a\": 1}", "k = 0", "o = Box()", "io: int? = nil",
               "f = fn(a: int) -> int { return a }", "g = fn(a: int, b: int) -> int { return a + b }", "bt = true", "bf = false",
-              "type Meters int", "dm: Meters = 5">>
+              "type Meters int", "dm: Meters = 5", "sx: Self? = nil", "ap = fn(h: fn() -> int) -> int { return h() }",
+              "ap2 = fn(h: fn() -> int, n: int) -> int { return h() + n }">>
 
 In(ctx, e) ==
     CASE ctx = "stmt" -> <<e>>
@@ -65,6 +75,11 @@ In(ctx, e) ==
       [] ctx = "map_value" -> <<"mm[\"b\"] = " \o e>>
       [] ctx = "in_fn" -> <<"w = fn() {", "	print " \o e, "}", "w()">>
       [] ctx = "in_method" -> <<"class W {", "	fn go(self) {", "		print " \o e, "	}", "}", "wi = W()", "wi.go()">>
+      [] ctx = "in_ctor" -> <<"class W {", "	v: int", "	constructor(self) {", "		self.v = " \o e, "	}", "}", "wi = W()">>
+      [] ctx = "in_method_closure" -> <<"class W {", "	fn go(self) {", "		c = fn() {", "			print " \o e, "		}", "		c()", "	}", "}", "wi = W()", "wi.go()">>
+      [] ctx = "method_self_arg" -> <<"class W {", "	fn id(self, n: int) -> int {", "		return n", "	}", "	fn go(self) {", "		print self.id(" \o e \o ")", "	}", "}", "wi = W()", "wi.go()">>
+      [] ctx = "rec_arg" -> <<"rc = fn(h: fn() -> int, n: int) -> int {", "	if n <= 0 {", "		return h()", "	}", "	return self(" \o e \o ", n - 1)", "}", "print rc(fn() -> int { return 4 }, 2)">>
+      [] ctx = "in_method_ret" -> <<"class W {", "	fn go(self) -> int {", "		return " \o e, "	}", "}", "wi = W()", "print wi.go()">>
       [] ctx = "or_fallback" -> <<"print (io) or " \o e>>
 
 Paths == {"..", "./..", "../lib", ".", "./.", "lib/..", "a/../b", "/abs", "nosuch", "main", "./main", "lib", "./lib", "lib.ms", "lib/", "", "..ms", "~", "a b"}
